@@ -23,20 +23,26 @@ def run(chk, rng, replay=None):
     cases = []
     seeds = [replay["seed"]] if replay is not None and "seed" in replay else [int(rng.integers(1 << 30)) for _ in range(want)]
     reqs, keep = [], []
+    scales = {}
     for sd in seeds:
         r = np.random.default_rng(sd)
         n = int(r.integers(1, 5 if chk.tier == "thorough" else 4))
         npt = int(r.integers(n + 1, (n + 1) * (n + 2) // 2 + 1))
         h = algrun.history(r, n, npt, 0, 0, int(r.integers(0, 8)))
-        if h is None:
+        if h is None or "crash" in h:
             continue
         models = h["models"]
         I = models.interpolation
+        # the ratio does not depend on the size of the set: shrink / blow up the whole set by an exact power of two
+        # (late phases of a run work with sets of size radius_final)
+        t = 2.0 ** int(r.choice([0, 0, -10, -20, -30, 10]))
+        I.xpt[...] = I.xpt * t
+        scales[t] = scales.get(t, 0) + 1
         X = algrun.xpt_rows(models)
         Winv = exact.inverse(exact.kkt(X))
         if Winv is None:
             continue
-        xnew = I.x_base + np.array([algrun.dy(r, -2, 2) for _ in range(n)])
+        xnew = I.x_base + t * np.array([algrun.dy(r, -2, 2) for _ in range(n)])
         k = int(r.integers(npt))
         with warnings.catch_warnings():
             warnings.simplefilter("ignore")
@@ -71,7 +77,7 @@ def run(chk, rng, replay=None):
         elif dall > tol:
             specfail.append((c, f"determinants(x_new) (all indices) differs from the exact ratios by {dall!r} (cond {c['cond']:.3g})"))
     chk.coverage.update({
-        "evaluations": len(seeds), "distinct_nontrivial": len(keep),
+        "evaluations": len(seeds), "distinct_nontrivial": len(keep), "set_scale_factors": {str(k): v for k, v in sorted(scales.items())},
         "rule": "interpolation sets reached by 0-7 random replacements / shifts / resets from the initial set (n 1..3 quick, 1..4 thorough; every admissible nb_points; dyadic data; cond <= 1e6), candidate points within two radii, one random index and all indices at once; the exact sigma comes from the Lean model after it has verified the inverse; allowance 1e4 eps cond scale. Non-trivial = set with certified inverse.",
         "samples": [{k: v for k, v in keep[-1].items() if k in ("seed", "n", "npt", "k", "one", "cond")}] if keep else [],
         "ratios_compared": sum(1 + len(c["all"]) for c in keep), "worst_error_over_eps_cond_scale": worst,
